@@ -76,8 +76,8 @@ def run(tier: str) -> int:
             {"Family": "optsk", "MaxLen": 3, "Starts": "zero", "Sample": 800, "workers": 8, "opt_cfgs": cfgs},
             {"Family": "optinl", "MaxLen": 3, "Starts": "zero", "Sample": 700, "workers": 8, "opt_cfgs": cfgs},
             {"Family": "opttrv", "MaxLen": 3, "Starts": "zero", "Sample": 300, "workers": 8, "opt_cfgs": cfgs},
-            {"Family": "mods", "MaxLen": 4, "Starts": "zero", "Sample": 0, "workers": 8, "opt_cfgs": small},
-            {"Family": "stack", "MaxLen": 4, "Starts": "zero", "Sample": 0, "workers": 8, "opt_cfgs": small},
+            {"Family": "mods", "MaxLen": 4, "Starts": "zero", "Sample": 2500, "workers": 8, "opt_cfgs": small},
+            {"Family": "stack", "MaxLen": 4, "Starts": "zero", "Sample": 4000, "workers": 8, "opt_cfgs": small},
             {"Family": "core3", "MaxLen": 3, "Starts": "zero", "Sample": 3000, "workers": 8, "opt_cfgs": small},
             {"Family": "tags", "MaxLen": 3, "Starts": "zero", "Sample": 0, "workers": 8, "opt_cfgs": small},
             {"Family": "ci", "MaxLen": 3, "Starts": "zero", "Sample": 0, "workers": 8, "opt_cfgs": small, "style": "min"},
